@@ -286,7 +286,12 @@ def run(cx, rep):
             # of a registration
             def inside_insert(tree_, pred):
                 return any(c["k"] == "MethodCall" and c["method"] in INSERTS and any(pred(x) for a_ in c["args"] for x in walk(a_)) for c in walk(tree_["body"]))
-            flows = inside_insert(F.hir[g.id], lambda x: x is m) or any(
+            # (also: `let export = match ..; table.insert_unknown(key, Rc::new(export))`)
+            bound = set()
+            for st in walk(F.hir[g.id]["body"]):
+                if st["k"] == "LetStmt" and st.get("init") is not None and any(x is m for x in walk(st["init"])):
+                    bound |= {b.get("lid") for b in walk(st["pat"]) if b["k"] == "P.Binding"}
+            flows = inside_insert(F.hir[g.id], lambda x: x is m or (x["k"] == "Path" and x.get("lid") in bound)) or any(
                 inside_insert(t2, lambda x: x["k"] in ("Call", "MethodCall") and F._callee_gid(g.crate, x.get("callee") or x.get("resolved") or "") == g.id)
                 for _, t2 in trees)
             for a in m["arms"]:
@@ -493,7 +498,14 @@ def run(cx, rep):
                         less = n["cond"]["op"] in ("Lt", "Le")
                         new_on_left = l.get("lid") == newv[0]
                         manual.append("min" if (less == new_on_left) else "max")
-        kinds_ = (["min"] * len(mins)) + (["max"] * len([m_ for m_ in maxs if m_["k"] == "Call" or m_["method"].startswith("max")])) + manual
+        # the reduction handed over as a function value: `.fold(init, usize::min)`, `.reduce(Ord::min)`
+        fnvals = [("min" if (n.get("def") or "").endswith("::min") else "max") for n in nodes
+                  if n["k"] == "Path" and n.get("res") in ("def", "fn", "assoc") and re.search(r"::(min|max)$", n.get("def") or "")
+                  and not any(c_["k"] == "Call" and c_.get("args") is not None and n is (c_.get("f") or c_.get("callee_node") or None) for c_ in nodes)]
+        called = {id(c_["f"]) for c_ in nodes if c_["k"] == "Call" and isinstance(c_.get("f"), dict)}
+        fnvals = [("min" if (n.get("def") or "").endswith("::min") else "max") for n in nodes
+                  if n["k"] == "Path" and re.search(r"::(min|max)$", n.get("def") or "") and id(n) not in called]
+        kinds_ = (["min"] * len(mins)) + (["max"] * len([m_ for m_ in maxs if m_["k"] == "Call" or m_["method"].startswith("max")])) + manual + fnvals
         rep.ob("C09.7", "cut-is-min", bool(kinds_) and all(k == "min" for k in kinds_),
                "%s reduces the shared-prefix lengths with %s: the cut must be the MINIMUM over all same-named files, otherwise two of them keep the same suffix" % (cut[0].id, kinds_ or "no recognisable reduction"),
                cut[0].loc(), sample={"reduction": kinds_})
